@@ -29,7 +29,7 @@ var c15Files = []string{"page.vuego", "comp.vuego", "layouts/main.vuego", "layou
 
 // entry@file: which call renders which page. plain.vuego names no layout (default layouts/base.vuego when it exists); pages/p.vuego names
 // "post", which resolves next to the page first (pages/post.vuego) and in layouts/ otherwise. Both pages are never edited themselves.
-var c15Entries = []string{"template-render", "render-file", "vue-render", "vue-fragment", "template-render@plain.vuego", "render-file@pages/p.vuego"}
+var c15Entries = []string{"template-render", "render-file", "vue-render", "vue-fragment", "template-render@plain.vuego", "render-file@pages/p.vuego", "template-render-nofill", "render-file-nofill", "render-file-nofill@solo.vuego"}
 
 // front-matter and body carry separate version numbers: an edit may change either part alone
 func c15Content(file string, fmv, version int) string {
@@ -68,6 +68,11 @@ func c15Call(t vuego.Template, entry string) (string, string) {
 			err = t.Load(page).Fill(map[string]any{"d": 1}).Render(context.Background(), &buf)
 		case "render-file":
 			err = t.New().Fill(map[string]any{"d": 1}).RenderFile(context.Background(), &buf, page)
+		// the same two calls WITHOUT a Fill of their own: the loaded template holds the base template's variables and the file's front-matter
+		case "template-render-nofill":
+			err = t.Load(page).Render(context.Background(), &buf)
+		case "render-file-nofill":
+			err = t.RenderFile(context.Background(), &buf, page)
 		case "vue-render":
 			err = vuego.VerifVue(t).Render(&buf, page, map[string]any{"d": 1})
 		case "vue-fragment":
@@ -125,7 +130,7 @@ func c15Run(steps []c15Step, fsKind ...string) *Case {
 		_ = i
 		key.WriteString(s.Op + ":" + s.File + s.Entry + s.Mtime + ";")
 		switch s.Op {
-		case "edit", "invalid", "edit-fm", "edit-body", "empty-body", "empty-file":
+		case "edit", "invalid", "edit-fm", "edit-body", "empty-body", "empty-file", "drop-keys":
 			if s.Op != "edit-fm" {
 				version[s.File]++
 			}
@@ -162,6 +167,17 @@ func c15Run(steps []c15Step, fsKind ...string) *Case {
 			}
 			if s.Op == "empty-file" {
 				content = ""
+			}
+			// the front-matter loses its keys (all but `layout`): what the file no longer defines is no longer defined
+			if s.Op == "drop-keys" {
+				var kept []string
+				for _, ln := range strings.Split(content, "\n") {
+					if strings.HasPrefix(ln, "title: ") || strings.HasPrefix(ln, "cv: ") || strings.HasPrefix(ln, "lv: ") || strings.HasPrefix(ln, "count: ") {
+						continue
+					}
+					kept = append(kept, ln)
+				}
+				content = strings.Join(kept, "\n")
 			}
 			mfs[s.File] = &fstest.MapFile{Data: []byte(content), ModTime: mt[s.File]}
 			obs = append(obs, nil)
@@ -312,7 +328,7 @@ func runC15(r *Run, replay *Case) {
 	var muts []c15Step
 	for _, f := range c15Files {
 		muts = append(muts, c15Step{Op: "edit-fm", File: f, Mtime: "advance"}, c15Step{Op: "edit-body", File: f, Mtime: "advance"}, c15Step{Op: "edit-fm", File: f, Mtime: "back"})
-		muts = append(muts, c15Step{Op: "empty-body", File: f, Mtime: "advance"}, c15Step{Op: "empty-file", File: f, Mtime: "advance"})
+		muts = append(muts, c15Step{Op: "empty-body", File: f, Mtime: "advance"}, c15Step{Op: "empty-file", File: f, Mtime: "advance"}, c15Step{Op: "drop-keys", File: f, Mtime: "advance"})
 		muts = append(muts, c15Step{Op: "edit", File: f, Mtime: "advance-ms"}, c15Step{Op: "edit-body", File: f, Mtime: "advance-ms"}, c15Step{Op: "edit-fm", File: f, Mtime: "back-ms"})
 		muts = append(muts, c15Step{Op: "edit", File: f, Mtime: "advance"}, c15Step{Op: "edit", File: f, Mtime: "back"}, c15Step{Op: "invalid", File: f, Mtime: "advance"}, c15Step{Op: "delete", File: f}, c15Step{Op: "touch", File: f})
 	}
